@@ -1,6 +1,7 @@
 //! cwv — conformance harness: runs the real cw-plus contracts inside cw-multi-test and records
 //! one ndjson event per call with the projected abstract state (see /verif/DESIGN.md section 5).
 mod common;
+mod cw1;
 mod cw20;
 mod cw3;
 mod cw4;
@@ -58,6 +59,7 @@ fn main() {
             let sched: Value = serde_json::from_str(&line).unwrap_or_else(|e| panic!("bad schedule line: {e}"));
             run_no += 1;
             match sys.as_str() {
+                "cw1" => cw1::run_schedule(&sched, run_no, &mut out),
                 "cw20" => cw20::run_schedule(&sched, run_no, &mut out),
                 "cw3" => cw3::run_schedule(&sched, run_no, &mut out),
                 "ics20" => ics20::run_schedule(&sched, run_no, &mut out),
@@ -94,6 +96,7 @@ fn main() {
     for _ in 0..random {
         run_no += 1;
         match sys.as_str() {
+            "cw1" => cw1::random_run(&mut rng, run_no, len, &mut out),
             "cw20" => cw20::random_run(&mut rng, run_no, len, &mut out),
             "cw3" => cw3::random_run(&mut rng, run_no, len, &mut out),
             "ics20" => ics20::random_run(&mut rng, run_no, len, &mut out),
